@@ -929,6 +929,8 @@ impl MerkleTree {
         r is Ok && r->Ok_0 is Left ==> r->Ok_0->Left_0@.len() == 1 && r->Ok_0->Left_0@[0].store == Store::Tree,
         // the changeset handed to the core is made from the current tree (so commitability is decided against it) ...
         r is Ok && r->Ok_0 is Right ==> r->Ok_0->Right_0.original_tree_length == old(self).length && r->Ok_0->Right_0.original_tree_fork == old(self).fork,
+        // ... whose roots are again the mountain range of its length (so a commit preserves the tree's root invariant),
+        r is Ok && r->Ok_0 is Right ==> r->Ok_0->Right_0.cs_mr(),
         // ... C04: without an upgrade section nothing a commit installs differs from the tree,
         r is Ok && r->Ok_0 is Right && proof.upgrade is None ==> !r->Ok_0->Right_0.upgraded && r->Ok_0->Right_0.length == old(self).length
             && r->Ok_0->Right_0.byte_length == old(self).byte_length && r->Ok_0->Right_0.fork == old(self).fork,
